@@ -81,6 +81,7 @@ def correspondence(ctx):
     alpha = [a for a in gen.TOKEN_ALPHA]
     strs = list(gen.exhaustive(alpha, 1)) + list(gen.random_strings(rg, alpha, ctx.pick(600, 6000), 2, 10))
     strs += gen.corpus()[:10] + sizing_inputs()
+    strs += edge_char_inputs(ctx.rng('corr/edge'), ctx.pick(300, 3000))
     model = common.model_batch_parallel([common.parse_req(s, 0) for s in strs])
     ref = dict(zip(strs, model))
     # (1) every input form agrees with the model's answer for the characters
@@ -161,6 +162,19 @@ def object_ids(soup):
                 walk(c)
     walk(soup.expr)
     return ids
+
+
+def edge_char_inputs(rg, n):
+    """sources that begin or end with a character an input-handling short cut might treat specially (byte order mark,
+    blanks of all kinds, line-separator look-alikes, surrogates, NUL), plus random mixtures: the form in which the
+    characters are handed over must not matter for them either"""
+    docs = ['\\x{a} b', 'a\n\\begin{a}b\\end{a}\n', '$x$', '% c\nd']
+    out = []
+    for c in gen.UNI_CHARS + ['\n', '\r', ' ', '\t', '\x00', '\r\n']:
+        for d in docs:
+            out += [c + d, d + c, c + c + d, c]
+    out += gen.unicode_strings(rg, n)[-n:] if n else []
+    return out
 
 
 def iso_doc(rg):
@@ -258,6 +272,7 @@ def oracle(ctx, seeds, scale):
     alpha = gen.TOKEN_ALPHA
     strs = [s for s in seeds if isinstance(s, str)]
     strs += list(gen.random_strings(rg, alpha, ctx.pick(800, 8000) * scale, 2, 10)) + sizing_inputs() + gen.corpus()[:12]
+    strs += edge_char_inputs(ctx.rng('oracle/edge'), ctx.pick(300, 3000) * scale)
     for s in strs:
         base = common.impl_parse(s)[0]
         for name, mk in forms(s, rg):
